@@ -33,6 +33,128 @@ def path_term(b, op):
     return root + ''.join('.' + str(x[1]) for x in base[1])
 
 
+def sym(b, l, depth=0):
+    """boolean expression of a local over option fields, following single definitions and two-armed short-circuit diamonds:
+    ('const', v) | ('field', key) | ('not', e) | ('bin', op, e1, e2) | ('ite', c, e_true, e_false) ; None if not such a thing"""
+    if depth > 12:
+        return None
+    ds = [d for d in b.defs().get(l, []) if d[0] == 'assign' and not d[1]['pl']['p']]
+    if len(ds) != len(b.defs().get(l, [])) or not ds:
+        return None
+    if len(ds) == 1:
+        return sym_rv(b, ds[0][1]['rv'], depth)
+    if len(ds) == 2:
+        (_, s1, b1, _), (_, s2, b2, _) = ds
+        dom = b.dominators()
+        common = [x for x in dom.get(b1, ()) if x in dom.get(b2, ()) and b.blocks[x]['term']['k'] == 'switch']
+        # the innermost common dominating switch decides which definition is reached
+        common.sort(key=lambda x: len(dom.get(x, ())), reverse=True)
+        for sw_b in common:
+            t = b.blocks[sw_b]['term']
+            if t['op']['k'] not in ('copy', 'move') or t['op']['pl']['p'] or len(t['vals']) != 1 or t['vals'][0] != 0:
+                continue
+            f_t, t_t = t['targets'][0], t['otherwise']
+            r1t, r1f = _reach(b, t_t, b1, b2), _reach(b, f_t, b1, b2)
+            r2t, r2f = _reach(b, t_t, b2, b1), _reach(b, f_t, b2, b1)
+            if r1t and r2f and not r1f and not r2t:
+                on_true, on_false = s1, s2
+            elif r2t and r1f and not r2f and not r1t:
+                on_true, on_false = s2, s1
+            else:
+                continue
+            c = sym(b, t['op']['pl']['l'], depth + 1)
+            et = sym_rv(b, on_true['rv'], depth + 1)
+            ef = sym_rv(b, on_false['rv'], depth + 1)
+            if c is None or et is None or ef is None:
+                return None
+            return ('ite', c, et, ef)
+    return None
+
+
+def _reach(b, start, goal, avoid):
+    seen, w = set(), [start]
+    while w:
+        x = w.pop()
+        if x in seen or b.blocks[x].get('cleanup'):
+            continue
+        seen.add(x)
+        if x == goal:
+            return True
+        if x == avoid:
+            continue
+        w.extend(succs(b.blocks[x]['term']))
+        if len(seen) > 60:
+            return False
+    return False
+
+
+def sym_rv(b, rv, depth):
+    if rv['k'] == 'use':
+        o = rv['op']
+        if o['k'] == 'const' and 'int' in o:
+            return ('const', bool(o['int']))
+        if o['k'] in ('copy', 'move'):
+            if o['pl']['p']:
+                k = field_key(b, o['pl'])
+                return ('field', k) if k else None
+            return sym(b, o['pl']['l'], depth + 1)
+        return None
+    if rv['k'] == 'unop' and rv['op'] == 'Not':
+        e = sym_op(b, rv['a'], depth)
+        return ('not', e) if e is not None else None
+    if rv['k'] == 'binop' and rv['op'] in ('BitAnd', 'BitOr', 'BitXor', 'Eq', 'Ne'):
+        e1, e2 = sym_op(b, rv['a'], depth), sym_op(b, rv['b'], depth)
+        if e1 is None or e2 is None:
+            return None
+        return ('bin', rv['op'], e1, e2)
+    return None
+
+
+def sym_op(b, o, depth):
+    if o['k'] == 'const' and 'int' in o:
+        return ('const', bool(o['int']))
+    if o['k'] in ('copy', 'move'):
+        if o['pl']['p']:
+            k = field_key(b, o['pl'])
+            return ('field', k) if k else None
+        return sym(b, o['pl']['l'], depth + 1)
+    return None
+
+
+def sym_fields(e):
+    if e is None:
+        return set()
+    if e[0] == 'field':
+        return {e[1]}
+    out = set()
+    for x in e[1:]:
+        if isinstance(x, tuple):
+            out |= sym_fields(x)
+    return out
+
+
+def sym_eval(e, env_in):
+    k = e[0]
+    if k == 'const':
+        return e[1]
+    if k == 'field':
+        return env_in.get(e[1], '?')
+    if k == 'not':
+        v = sym_eval(e[1], env_in)
+        return '?' if v == '?' else (not v)
+    if k == 'bin':
+        a, c = sym_eval(e[2], env_in), sym_eval(e[3], env_in)
+        if a == '?' or c == '?':
+            return '?'
+        return {'BitAnd': a and c, 'BitOr': a or c, 'BitXor': a != c, 'Eq': a == c, 'Ne': a != c}[e[1]]
+    if k == 'ite':
+        c = sym_eval(e[1], env_in)
+        if c == '?':
+            return '?'
+        return sym_eval(e[2] if c else e[3], env_in)
+    return '?'
+
+
 def chains(b):
     """yield dict(at, inputs, table:[(assignment dict, effective flag set)], path)"""
     news = [(bi, t) for bi, t in b.calls() if 'q' in t['callee'] and is_oo(callee_q(t)) and callee_q(t).endswith('::new')]
@@ -60,6 +182,18 @@ def chains(b):
                     k = field_key(b, st['rv']['op']['pl'])
                     if k:
                         inputs.add(k)
+        symcache = {}
+        for x in region:
+            t = b.blocks[x]['term']
+            cand = None
+            if t['k'] == 'call' and 'q' in t['callee'] and is_oo(callee_q(t)) and callee_q(t).split('::')[-1] in BUILDER:
+                cand = t['args'][1]
+            elif t['k'] == 'switch':
+                cand = t['op']
+            if cand and cand['k'] in ('copy', 'move') and not cand['pl']['p'] and b.lty(cand['pl']['l']).get('k') == 'bool':
+                e = sym(b, cand['pl']['l'])
+                symcache[cand['pl']['l']] = e
+                inputs |= sym_fields(e)
         inputs = sorted(inputs)
         table = []
         path = None
@@ -104,6 +238,8 @@ def chains(b):
                     if m in BUILDER:
                         a = t['args'][1]
                         v = bool(a['int']) if a['k'] == 'const' and 'int' in a else benv.get(a['pl']['l'], '?') if a['k'] != 'const' else '?'
+                        if v == '?' and a['k'] != 'const' and symcache.get(a['pl']['l']) is not None:
+                            v = sym_eval(symcache[a['pl']['l']], env_in)
                         flags[m] = v
                         if v == '?':
                             complete = False
@@ -113,6 +249,8 @@ def chains(b):
                         break
                 if t['k'] == 'switch':
                     l = t['op']['pl']['l'] if t['op']['k'] in ('copy', 'move') else None
+                    if l not in benv and symcache.get(l) is not None and sym_eval(symcache[l], env_in) != '?':
+                        benv[l] = sym_eval(symcache[l], env_in)
                     if l not in benv:
                         complete = False
                         break
